@@ -409,6 +409,23 @@ def library_oracle_(ctx, floor0):
             ctx.violation(case, "no exception", "%s: %s" % (type(e).__name__, e), "compute_full raises",
                           tags=dict(clause="raises", exc=type(e).__name__))
             continue
+        if corner or it % 4 == 0:
+            # a copy of a computer is a computer with the same configuration (copy.deepcopy, pickle round trip): same features,
+            # bit for bit - the copy is taken AFTER the original was used
+            for how, cl in common.clone_routes(comp):
+                ccase = dict(case, copy=how)
+                ctx.case(ccase, kind="library_copy:" + how)
+                try:
+                    if isinstance(cl, Exception):
+                        raise cl
+                    got_c = cl.compute_full(x)
+                except Exception as e:
+                    ctx.violation(ccase, "a computer", "%s: %s" % (type(e).__name__, str(e)[:150]), "a copied computer computes",
+                                  tags=dict(clause="copy_equivalence", how="raises"))
+                    continue
+                if got_c.shape != got.shape or got_c.tobytes() != got.tobytes():
+                    ctx.violation(ccase, "the original's features", "differs (max |diff| %s)" % (float(np.nanmax(np.abs(got_c - got))) if got_c.shape == got.shape and got.size else "shape"),
+                                  "a %s copy of the computer returns the same features" % how, tags=dict(clause="copy_equivalence"))
         ncoef = bank.num_filts + int(flags["include_energy"])
         if N < L // 2 + 1:
             if got.shape != (0, ncoef):
